@@ -1,6 +1,381 @@
-(* C08 — interleaving model (stub, replaced below) *)
+(* C08 — interleaving model of the shared-memory ring buffer at the granularity of
+   harness/vsched: thread 0 is the reader (loop: r_fetch, r_move), threads 1..nw are writers
+   (per message: [lock], w_alloc_bytes, fill, w_move, [unlock], bounded retries on FULL).
+   Every atomic operation (load/store of the cursors, test-and-set/clear of the write lock),
+   every sched_yield and every harness yield point is one step producing the logged event;
+   every plain segment between two of them is one step producing the driver's notes.
+   The data lines are abstract: per line the two header words (n_bytes, n_cachelines), the
+   payload tag of the message whose header is at that line, and a version for the
+   release/acquire view discipline of Lib/Conc.v (a payload poisons the header words of the
+   lines it covers).  Memory orders are parameters (gen/Params_C08.v).  Ghost fields record the
+   committed / unread / delivered messages and the monitors (uncovered read, overlap). *)
 From MV Require Export Lib.Conc.
+From MV Require Import C08.Model.
+Local Open Scope Z_scope.
+
 Record params := {
-  mo_w_load_r : memorder; mo_w_store_wrap : memorder; mo_w_store_commit : memorder;
-  mo_r_load_w : memorder; mo_r_store_wrap : memorder; mo_r_store_move : memorder;
-  mo_lock_tas : memorder; mo_lock_clear : memorder }.
+  mo_w_load_r : memorder;        (* update_cached_remain: load read_cursor *)
+  mo_w_store_wrap : memorder;    (* update_cached_remain: store write_cursor 0 *)
+  mo_w_store_commit : memorder;  (* w_move: store write_cursor *)
+  mo_r_load_w : memorder;        (* r_fetch: load write_cursor *)
+  mo_r_store_wrap : memorder;    (* r_fetch: store read_cursor 0 *)
+  mo_r_store_move : memorder;    (* r_move: store read_cursor *)
+  mo_lock_tas : memorder;        (* muggle_spinlock_lock *)
+  mo_lock_clear : memorder;      (* muggle_spinlock_unlock *)
+}.
+
+Definition acq_join (mo : memorder) (seen stamp : nat) : nat :=
+  if is_acq mo then Nat.max seen stamp else seen.
+Definition rel_stamp (mo : memorder) (seen : nat) : nat :=
+  if is_rel mo then seen else 0%nat.
+Definition rmw_stamp (mo : memorder) (seen stamp : nat) : nat :=
+  if is_rel mo then Nat.max stamp seen else stamp.
+
+(* cells and notes as named by the driver *)
+Definition cell_w : nat := 0%nat.
+Definition cell_r : nat := 1%nat.
+Definition cell_lock : nat := 2%nat.
+Definition cell_ridle : nat := 3%nat.
+Definition cell_wretry : nat := 4%nat.
+Definition n_sent : nat := 1%nat.
+Definition n_full : nat := 2%nat.
+Definition n_drop : nat := 3%nat.
+Definition n_wdone : nat := 4%nat.
+Definition n_glen : nat := 5%nat.
+Definition n_goff : nat := 6%nat.
+Definition n_gtag : nat := 7%nat.
+Definition n_idle : nat := 8%nat.
+Definition n_rdone : nat := 9%nat.
+
+Inductive rpc :=
+  | RSeg0 | RLoadW | RSegFetch (w_obs : Z) | RStoreWrap | RSegFetch2 | RStoreMove (v : Z)
+  | RIdle | RFin | RDone.
+Inductive wpc :=
+  | WSeg0 | WTas | WSegY | WYield | WSegT | WSegAlloc | WLoadR | WSegUpd (r_obs : Z)
+  | WStoreWrap (left : Z) | WSegWrapped (left : Z) | WStoreCommit (a need : Z)
+  | WSegC (off : Z) | WClear (sent : bool) (off : Z) | WSegFull | WRetry | WKilled | WFin | WDone.
+
+Record rthread := { r_pc : rpc; r_done : bool; r_seen : nat }.
+Record wthread := {
+  w_pc : wpc;
+  w_script : list (Z * Z);       (* (n_bytes, tag) still to send *)
+  w_tries : nat;                 (* attempts left for the current message *)
+  w_pend : list (nat * Z);       (* notes printed at the start of the next segment *)
+  w_seen : nat;
+  w_ev : nat;                    (* atomic operations performed (for the kill switch) *)
+}.
+
+Record csys := {
+  c_n : Z; c_locked : bool; c_nw : nat; c_tries : nat; c_kill : option nat;
+  c_w : Z; c_wstamp : nat;
+  c_r : Z;
+  c_lock : Z; c_lstamp : nat;
+  c_crem : Z;
+  c_hN : Z -> Z; c_hC : Z -> Z; c_body : Z -> Z; c_ver : Z -> nat; c_gver : nat;
+  c_wdone : nat;
+  c_committed : list (Z * Z * Z);   (* ghost: (line, n_bytes, tag) in commit order *)
+  c_unread : list (Z * Z * Z);      (* ghost: committed, not yet consumed *)
+  c_delivered : list (Z * Z * Z);   (* ghost: what the reader was given: (line, n_bytes, tag) *)
+  c_uncov : nat;                    (* ghost: plain reads not covered by the reader's view *)
+  c_overlap : nat;                  (* ghost: writer stores into a line of an unread message *)
+  c_rd : rthread;
+  c_wr : nat -> wthread;
+}.
+
+Definition fupd {A} (f : Z -> A) (l : Z) (v : A) : Z -> A := fun x => if x =? l then v else f x.
+Definition frange {A} (f : Z -> A) (a b : Z) (v : A) : Z -> A :=
+  fun x => if (a <=? x) && (x <? b) then v else f x.
+
+Definition cinit (n : Z) (locked : bool) (tries : nat) (kill : option nat)
+           (scripts : list (list (Z * Z))) : csys :=
+  {| c_n := n; c_locked := locked; c_nw := length scripts; c_tries := tries; c_kill := kill;
+     c_w := 0; c_wstamp := 0; c_r := 0; c_lock := 0; c_lstamp := 0; c_crem := n - 1;
+     c_hN := fun _ => -1; c_hC := fun _ => -1; c_body := fun _ => -1; c_ver := fun _ => 0%nat; c_gver := 0;
+     c_wdone := 0; c_committed := []; c_unread := []; c_delivered := []; c_uncov := 0; c_overlap := 0;
+     c_rd := {| r_pc := RSeg0; r_done := false; r_seen := 0 |};
+     c_wr := fun t => {| w_pc := WSeg0; w_script := nth (Nat.pred t) scripts []; w_tries := tries;
+                         w_pend := []; w_seen := 0; w_ev := 0 |} |}.
+
+(* ---- record updates ---- *)
+Definition set_rd (s : csys) (x : rthread) : csys :=
+  {| c_n := c_n s; c_locked := c_locked s; c_nw := c_nw s; c_tries := c_tries s; c_kill := c_kill s;
+     c_w := c_w s; c_wstamp := c_wstamp s; c_r := c_r s; c_lock := c_lock s; c_lstamp := c_lstamp s;
+     c_crem := c_crem s; c_hN := c_hN s; c_hC := c_hC s; c_body := c_body s; c_ver := c_ver s; c_gver := c_gver s;
+     c_wdone := c_wdone s; c_committed := c_committed s; c_unread := c_unread s; c_delivered := c_delivered s;
+     c_uncov := c_uncov s; c_overlap := c_overlap s; c_rd := x; c_wr := c_wr s |}.
+Definition set_wr (s : csys) (t : nat) (x : wthread) : csys :=
+  {| c_n := c_n s; c_locked := c_locked s; c_nw := c_nw s; c_tries := c_tries s; c_kill := c_kill s;
+     c_w := c_w s; c_wstamp := c_wstamp s; c_r := c_r s; c_lock := c_lock s; c_lstamp := c_lstamp s;
+     c_crem := c_crem s; c_hN := c_hN s; c_hC := c_hC s; c_body := c_body s; c_ver := c_ver s; c_gver := c_gver s;
+     c_wdone := c_wdone s; c_committed := c_committed s; c_unread := c_unread s; c_delivered := c_delivered s;
+     c_uncov := c_uncov s; c_overlap := c_overlap s; c_rd := c_rd s; c_wr := upd (c_wr s) t x |}.
+Definition set_wcur (s : csys) (v : Z) (st : nat) : csys :=
+  {| c_n := c_n s; c_locked := c_locked s; c_nw := c_nw s; c_tries := c_tries s; c_kill := c_kill s;
+     c_w := v; c_wstamp := st; c_r := c_r s; c_lock := c_lock s; c_lstamp := c_lstamp s;
+     c_crem := c_crem s; c_hN := c_hN s; c_hC := c_hC s; c_body := c_body s; c_ver := c_ver s; c_gver := c_gver s;
+     c_wdone := c_wdone s; c_committed := c_committed s; c_unread := c_unread s; c_delivered := c_delivered s;
+     c_uncov := c_uncov s; c_overlap := c_overlap s; c_rd := c_rd s; c_wr := c_wr s |}.
+Definition set_rcur (s : csys) (v : Z) : csys :=
+  {| c_n := c_n s; c_locked := c_locked s; c_nw := c_nw s; c_tries := c_tries s; c_kill := c_kill s;
+     c_w := c_w s; c_wstamp := c_wstamp s; c_r := v; c_lock := c_lock s; c_lstamp := c_lstamp s;
+     c_crem := c_crem s; c_hN := c_hN s; c_hC := c_hC s; c_body := c_body s; c_ver := c_ver s; c_gver := c_gver s;
+     c_wdone := c_wdone s; c_committed := c_committed s; c_unread := c_unread s; c_delivered := c_delivered s;
+     c_uncov := c_uncov s; c_overlap := c_overlap s; c_rd := c_rd s; c_wr := c_wr s |}.
+Definition set_lock (s : csys) (v : Z) (st : nat) : csys :=
+  {| c_n := c_n s; c_locked := c_locked s; c_nw := c_nw s; c_tries := c_tries s; c_kill := c_kill s;
+     c_w := c_w s; c_wstamp := c_wstamp s; c_r := c_r s; c_lock := v; c_lstamp := st;
+     c_crem := c_crem s; c_hN := c_hN s; c_hC := c_hC s; c_body := c_body s; c_ver := c_ver s; c_gver := c_gver s;
+     c_wdone := c_wdone s; c_committed := c_committed s; c_unread := c_unread s; c_delivered := c_delivered s;
+     c_uncov := c_uncov s; c_overlap := c_overlap s; c_rd := c_rd s; c_wr := c_wr s |}.
+Definition set_crem (s : csys) (c : Z) : csys :=
+  {| c_n := c_n s; c_locked := c_locked s; c_nw := c_nw s; c_tries := c_tries s; c_kill := c_kill s;
+     c_w := c_w s; c_wstamp := c_wstamp s; c_r := c_r s; c_lock := c_lock s; c_lstamp := c_lstamp s;
+     c_crem := c; c_hN := c_hN s; c_hC := c_hC s; c_body := c_body s; c_ver := c_ver s; c_gver := c_gver s;
+     c_wdone := c_wdone s; c_committed := c_committed s; c_unread := c_unread s; c_delivered := c_delivered s;
+     c_uncov := c_uncov s; c_overlap := c_overlap s; c_rd := c_rd s; c_wr := c_wr s |}.
+Definition set_wdone (s : csys) (d : nat) : csys :=
+  {| c_n := c_n s; c_locked := c_locked s; c_nw := c_nw s; c_tries := c_tries s; c_kill := c_kill s;
+     c_w := c_w s; c_wstamp := c_wstamp s; c_r := c_r s; c_lock := c_lock s; c_lstamp := c_lstamp s;
+     c_crem := c_crem s; c_hN := c_hN s; c_hC := c_hC s; c_body := c_body s; c_ver := c_ver s; c_gver := c_gver s;
+     c_wdone := d; c_committed := c_committed s; c_unread := c_unread s; c_delivered := c_delivered s;
+     c_uncov := c_uncov s; c_overlap := c_overlap s; c_rd := c_rd s; c_wr := c_wr s |}.
+(* a plain write segment of the writer: header words / payload / versions, ghost overlap count *)
+Definition set_data (s : csys) (hN hC body : Z -> Z) (ver : Z -> nat) (gver : nat) (ovl : nat) : csys :=
+  {| c_n := c_n s; c_locked := c_locked s; c_nw := c_nw s; c_tries := c_tries s; c_kill := c_kill s;
+     c_w := c_w s; c_wstamp := c_wstamp s; c_r := c_r s; c_lock := c_lock s; c_lstamp := c_lstamp s;
+     c_crem := c_crem s; c_hN := hN; c_hC := hC; c_body := body; c_ver := ver; c_gver := gver;
+     c_wdone := c_wdone s; c_committed := c_committed s; c_unread := c_unread s; c_delivered := c_delivered s;
+     c_uncov := c_uncov s; c_overlap := ovl; c_rd := c_rd s; c_wr := c_wr s |}.
+Definition set_ghost (s : csys) (com unr del : list (Z * Z * Z)) (uncov : nat) : csys :=
+  {| c_n := c_n s; c_locked := c_locked s; c_nw := c_nw s; c_tries := c_tries s; c_kill := c_kill s;
+     c_w := c_w s; c_wstamp := c_wstamp s; c_r := c_r s; c_lock := c_lock s; c_lstamp := c_lstamp s;
+     c_crem := c_crem s; c_hN := c_hN s; c_hC := c_hC s; c_body := c_body s; c_ver := c_ver s; c_gver := c_gver s;
+     c_wdone := c_wdone s; c_committed := com; c_unread := unr; c_delivered := del;
+     c_uncov := uncov; c_overlap := c_overlap s; c_rd := c_rd s; c_wr := c_wr s |}.
+
+Definition wset (x : wthread) (p : wpc) : wthread :=
+  {| w_pc := p; w_script := w_script x; w_tries := w_tries x; w_pend := w_pend x; w_seen := w_seen x; w_ev := w_ev x |}.
+Definition wset_pend (x : wthread) (p : wpc) (pend : list (nat * Z)) : wthread :=
+  {| w_pc := p; w_script := w_script x; w_tries := w_tries x; w_pend := pend; w_seen := w_seen x; w_ev := w_ev x |}.
+Definition wset_seen (x : wthread) (p : wpc) (seen : nat) : wthread :=
+  {| w_pc := p; w_script := w_script x; w_tries := w_tries x; w_pend := w_pend x; w_seen := seen; w_ev := w_ev x |}.
+
+(* does the line range [a, b) touch an unread message's footprint ? (ghost monitor) *)
+Definition touches (unread : list (Z * Z * Z)) (a b : Z) : bool :=
+  existsb (fun m => let '(l, nb, _) := m in (l <? b) && (a <? l + cal_cachelines nb)) unread.
+
+(* lines whose header words a payload of nb bytes at line a overwrites: a < l, 64 l < 64 a + 8 + nb *)
+Definition pay_end (a nb : Z) : Z := a + (HDR + nb - 1) / CL + 1.
+
+(* w_alloc tail: header, payload, then w_move's plain part (cached_remain -= n); next: commit store *)
+Definition w_finish (s : csys) (t : nat) (x : wthread) (notes : list (nat * Z)) : csys * label :=
+  match w_script x with
+  | [] => (s, LPlain notes)
+  | (nb, tag) :: _ =>
+    let a := c_w s in let need := cal_cachelines nb in
+    let gv := S (c_gver s) in
+    let hN := fupd (frange (c_hN s) (a + 1) (pay_end a nb) (-1)) a nb in
+    let hC := fupd (frange (c_hC s) (a + 1) (pay_end a nb) (-1)) a need in
+    let body := fupd (c_body s) a tag in
+    let ver := frange (c_ver s) a (pay_end a nb) gv in
+    let ovl := if touches (c_unread s) a (pay_end a nb) then S (c_overlap s) else c_overlap s in
+    let s1 := set_data s hN hC body ver gv ovl in
+    let s2 := set_crem s1 (u32 (c_crem s - need)) in
+    (set_wr s2 t (wset_seen (wset_pend x (WStoreCommit a need) []) (WStoreCommit a need) gv), LPlain notes)
+  end.
+
+(* alloc returned NULL: [unlock], note full, yield point *)
+Definition w_fail (s : csys) (t : nat) (x : wthread) (notes : list (nat * Z)) : csys * label :=
+  if c_locked s then (set_wr s t (wset_pend x (WClear false 0) []), LPlain notes)
+  else (set_wr s t (wset_pend x WRetry []), LPlain (notes ++ [(n_full, 0)])).
+
+(* w_alloc_bytes up to its first atomic operation (or to the commit store) *)
+Definition w_alloc1 (s : csys) (t : nat) (x : wthread) (notes : list (nat * Z)) : csys * label :=
+  match w_script x with
+  | [] => (s, LPlain notes)
+  | (nb, _) :: _ =>
+    if c_crem s <? cal_cachelines nb then (set_wr s t (wset_pend x WLoadR []), LPlain notes)
+    else w_finish s t x notes
+  end.
+
+Definition is_atomic (o : opk) : bool :=
+  match o with OLoad | OStore | OTas | OClear => true | _ => false end.
+
+(* the kill switch: writer 1 stops for good right after its k-th atomic operation *)
+Definition kill_check (s : csys) (t : nat) (r : csys * label) : csys * label :=
+  match r with
+  | (s', LEv e) =>
+    if Nat.eqb t 1 && is_atomic (e_op e) then
+      let x := c_wr s' t in
+      let ev := S (w_ev (c_wr s t)) in
+      let x' := {| w_pc := w_pc x; w_script := w_script x; w_tries := w_tries x; w_pend := w_pend x;
+                   w_seen := w_seen x; w_ev := ev |} in
+      match c_kill s with
+      | Some k => if Nat.eqb k ev then
+                    (set_wdone (set_wr s' t (wset_pend x' WKilled [])) (S (c_wdone s')), LEv e)
+                  else (set_wr s' t x', LEv e)
+      | None => (set_wr s' t x', LEv e)
+      end
+    else r
+  | _ => r
+  end.
+
+Definition covered (s : csys) (seen : nat) (a b : Z) : bool :=
+  forallb (fun i => Nat.leb (c_ver s (a + Z.of_nat i)) seen) (seq 0 (Z.to_nat (b - a))).
+
+(* reader: got a message whose header is at line l: notes, ghost delivery, next = r_move's store *)
+Definition r_got (s : csys) (x : rthread) (l : Z) : csys * label :=
+  let nb := c_hN s l in let tag := c_body s l in
+  let cov := covered s (r_seen x) l (pay_end l nb) in
+  let s1 := set_ghost s (c_committed s) (c_unread s) (c_delivered s ++ [(l, nb, tag)])
+                      (if cov then c_uncov s else S (c_uncov s)) in
+  (set_rd s1 {| r_pc := RStoreMove (u32 (c_r s + c_hC s l)); r_done := r_done x; r_seen := r_seen x |},
+   LPlain [(n_glen, nb); (n_goff, CL * l + HDR); (n_gtag, tag)]).
+(* reader: fetch returned NULL *)
+Definition r_null (s : csys) (x : rthread) : csys * label :=
+  if r_done x then (set_rd s {| r_pc := RFin; r_done := true; r_seen := r_seen x |}, LPlain [(n_rdone, 0)])
+  else (set_rd s {| r_pc := RIdle; r_done := false; r_seen := r_seen x |}, LPlain [(n_idle, 0)]).
+
+Definition rstep (P : params) (s : csys) : option (csys * label) :=
+  let x := c_rd s in
+  match r_pc x with
+  | RSeg0 =>
+    Some (set_rd s {| r_pc := RLoadW; r_done := Nat.eqb (c_wdone s) (c_nw s); r_seen := r_seen x |}, LPlain [])
+  | RLoadW =>
+    let mo := mo_r_load_w P in
+    Some (set_rd s {| r_pc := RSegFetch (c_w s); r_done := r_done x; r_seen := acq_join mo (r_seen x) (c_wstamp s) |},
+          LEv (Ev OLoad cell_w mo (c_w s) 0 0))
+  | RSegFetch w_obs =>
+    if w_obs =? c_r s then Some (r_null s x)
+    else
+      let cov := Nat.leb (c_ver s (c_r s)) (r_seen x) in
+      let s0 := if cov then s else set_ghost s (c_committed s) (c_unread s) (c_delivered s) (S (c_uncov s)) in
+      if negb (c_hN s (c_r s) =? 0) then Some (r_got s0 x (c_r s))
+      else if w_obs =? 0 then Some (r_null s0 x)
+      else Some (set_rd s0 {| r_pc := RStoreWrap; r_done := r_done x; r_seen := r_seen x |}, LPlain [])
+  | RStoreWrap =>
+    let mo := mo_r_store_wrap P in
+    Some (set_rd (set_rcur s 0) {| r_pc := RSegFetch2; r_done := r_done x; r_seen := r_seen x |},
+          LEv (Ev OStore cell_r mo 0 0 0))
+  | RSegFetch2 =>
+    let cov := Nat.leb (c_ver s 0) (r_seen x) in
+    let s0 := if cov then s else set_ghost s (c_committed s) (c_unread s) (c_delivered s) (S (c_uncov s)) in
+    if negb (c_hN s 0 =? 0) then Some (r_got s0 x 0) else Some (r_null s0 x)
+  | RStoreMove v =>
+    let mo := mo_r_store_move P in
+    let s1 := set_ghost (set_rcur s v) (c_committed s) (tl (c_unread s)) (c_delivered s) (c_uncov s) in
+    Some (set_rd s1 {| r_pc := RSeg0; r_done := r_done x; r_seen := r_seen x |},
+          LEv (Ev OStore cell_r mo v 0 0))
+  | RIdle => Some (set_rd s {| r_pc := RSeg0; r_done := r_done x; r_seen := r_seen x |},
+                   LEv (Ev OPlain cell_ridle MoNone 0 0 0))
+  | RFin => Some (set_rd s {| r_pc := RDone; r_done := r_done x; r_seen := r_seen x |}, LExit)
+  | RDone => None
+  end.
+
+(* advance to the next message / next attempt *)
+Definition w_next_msg (s : csys) (x : wthread) (pend : list (nat * Z)) : wthread :=
+  {| w_pc := WSeg0; w_script := tl (w_script x); w_tries := c_tries s; w_pend := pend; w_seen := w_seen x; w_ev := w_ev x |}.
+
+Definition wstep (P : params) (s : csys) (t : nat) : option (csys * label) :=
+  let x := c_wr s t in
+  match w_pc x with
+  | WSeg0 =>
+    if (Nat.eqb t 1) && (match c_kill s with Some O => true | _ => false end) && Nat.eqb (w_ev x) 0 then
+      (* killed before its first operation *)
+      Some (set_wdone (set_wr s t (wset x WFin)) (S (c_wdone s)), LPlain [])
+    else
+    match w_script x with
+    | [] => Some (set_wdone (set_wr s t (wset_pend x WFin [])) (S (c_wdone s)), LPlain (w_pend x ++ [(n_wdone, 0)]))
+    | _ :: _ =>
+      if c_locked s then Some (set_wr s t (wset_pend x WTas []), LPlain (w_pend x))
+      else Some (w_alloc1 s t x (w_pend x))
+    end
+  | WTas =>
+    let mo := mo_lock_tas P in
+    let prev := c_lock s in
+    let x' := wset_seen x (if prev =? 0 then WSegAlloc else WSegY) (acq_join mo (w_seen x) (c_lstamp s)) in
+    Some (set_wr (set_lock s 1 (rmw_stamp mo (w_seen x) (c_lstamp s))) t x', LEv (Ev OTas cell_lock mo prev 0 0))
+  | WSegY => Some (set_wr s t (wset x WYield), LPlain [])
+  | WYield => Some (set_wr s t (wset x WSegT), LEv (Ev OYield 0%nat MoNone 0 0 0))
+  | WSegT => Some (set_wr s t (wset x WTas), LPlain [])
+  | WSegAlloc => Some (w_alloc1 s t x [])
+  | WLoadR =>
+    let mo := mo_w_load_r P in
+    Some (set_wr s t (wset x (WSegUpd (c_r s))), LEv (Ev OLoad cell_r mo (c_r s) 0 0))
+  | WSegUpd r_obs =>
+    match w_script x with
+    | [] => None
+    | (nb, _) :: _ =>
+      let need := cal_cachelines nb in
+      if r_obs >? c_w s then
+        let s1 := set_crem s (u32 (r_obs - c_w s - 1)) in
+        if c_crem s1 <? need then Some (w_fail s1 t x []) else Some (w_finish s1 t x [])
+      else
+        let right := u32 (c_n s - c_w s - 1) in
+        let lft := s32 r_obs - 1 in
+        if right >=? need then Some (w_finish (set_crem s right) t x [])
+        else if lft >=? s32 need then
+          (* marker at w *)
+          let gv := S (c_gver s) in
+          let ovl := if touches (c_unread s) (c_w s) (c_w s + 1) then S (c_overlap s) else c_overlap s in
+          let s1 := set_data s (fupd (c_hN s) (c_w s) 0) (fupd (c_hC s) (c_w s) 0) (c_body s)
+                             (fupd (c_ver s) (c_w s) gv) gv ovl in
+          Some (set_wr s1 t (wset_seen x (WStoreWrap lft) gv), LPlain [])
+        else Some (w_fail s t x [])
+    end
+  | WStoreWrap lft =>
+    let mo := mo_w_store_wrap P in
+    Some (set_wr (set_wcur s 0 (rel_stamp mo (w_seen x))) t (wset x (WSegWrapped lft)),
+          LEv (Ev OStore cell_w mo 0 0 0))
+  | WSegWrapped lft =>
+    match w_script x with
+    | [] => None
+    | (nb, _) :: _ =>
+      let s1 := set_crem s (u32 lft) in
+      if c_crem s1 <? cal_cachelines nb then Some (w_fail s1 t x []) else Some (w_finish s1 t x [])
+    end
+  | WStoreCommit a need =>
+    let mo := mo_w_store_commit P in
+    match w_script x with
+    | [] => None
+    | (nb, tag) :: _ =>
+      let v := u32 (c_w s + need) in
+      let s1 := set_ghost (set_wcur s v (rel_stamp mo (w_seen x)))
+                          (c_committed s ++ [(a, nb, tag)]) (c_unread s ++ [(a, nb, tag)]) (c_delivered s) (c_uncov s) in
+      let off := CL * a + HDR in
+      if c_locked s then Some (set_wr s1 t (wset x (WSegC off)), LEv (Ev OStore cell_w mo v 0 0))
+      else Some (set_wr s1 t (w_next_msg s x [(n_sent, off)]), LEv (Ev OStore cell_w mo v 0 0))
+    end
+  | WSegC off => Some (set_wr s t (wset x (WClear true off)), LPlain [])
+  | WClear sent off =>
+    let mo := mo_lock_clear P in
+    let s1 := set_lock s 0 (rel_stamp mo (w_seen x)) in
+    Some (set_wr s1 t (if sent then w_next_msg s x [(n_sent, off)] else wset x WSegFull),
+          LEv (Ev OClear cell_lock mo 0 0 0))
+  | WSegFull => Some (set_wr s t (wset x WRetry), LPlain [(n_full, 0)])
+  | WRetry =>
+    let x' := match w_tries x with
+              | S (S k) => {| w_pc := WSeg0; w_script := w_script x; w_tries := S k; w_pend := [];
+                              w_seen := w_seen x; w_ev := w_ev x |}
+              | _ => w_next_msg s x [(n_drop, 0)]
+              end in
+    Some (set_wr s t x', LEv (Ev OPlain cell_wretry MoNone 0 0 0))
+  | WKilled => Some (set_wr s t (wset x WFin), LPlain [])
+  | WFin => Some (set_wr s t (wset x WDone), LExit)
+  | WDone => None
+  end.
+
+Definition cstep (P : params) (s : csys) (t ch : nat) : option (csys * label) :=
+  if Nat.eqb t 0 then rstep P s
+  else if Nat.leb t (c_nw s) && (c_locked s || Nat.eqb t 1) then
+    match wstep P s t with
+    | Some r => Some (kill_check s t r)
+    | None => None
+    end
+  else None.
+
+(* orders that make the hand-over of plain data sound: both stores of write_cursor release, the
+   reader's load of it acquire; with several writers the lock must be acquire / release *)
+Definition mo_sufficient (P : params) : bool :=
+  is_rel (mo_w_store_wrap P) && is_rel (mo_w_store_commit P) && is_acq (mo_r_load_w P) &&
+  is_acq (mo_lock_tas P) && is_rel (mo_lock_clear P).
